@@ -181,7 +181,8 @@ class MonDeque(deque):
 class MonStack(Cl.Stack):
     def __init__(self, max_items=1024, max_item_size=1024):
         super().__init__(max_items=max_items, max_item_size=max_item_size)
-        self.deque = MonDeque(self, maxlen=self.max_items)
+        # the monitored storage keeps whatever bound the Stack under test gave its own storage
+        self.deque = MonDeque(self, maxlen=getattr(self.deque, 'maxlen', self.max_items))
 
 
 class VMTape(MonTape):
